@@ -54,7 +54,7 @@ Shifted(U, S, j) == {U.sh[j][a] : a \in S} \ {0}
 Target(k) ==
   CASE k.op \in {"New", "Build", "BitmapOf", "Clone", "AndS", "OrS", "XorS", "AndNotS", "FlipS", "AddOffset",
                  "DenseRT", "BitSetRT", "FastOr", "HeapOr", "ParOr", "ParHeapOr", "FastAnd", "ParAnd", "HeapXor",
-                 "Load", "FrozenRT", "LoadLegal"} -> k.dst
+                 "Load", "FrozenRT", "LoadLegal", "Load64"} -> k.dst
     [] k.op \in {"Add", "AddInt", "CheckedAdd", "Remove", "CheckedRemove", "AddMany", "AddRange", "RemoveRange",
                  "Flip", "Clear", "RunOptimize", "SetCOW", "Detach", "And", "Or", "Xor", "AndNot", "AndAny"} -> k.x
     [] OTHER -> 0
@@ -67,7 +67,7 @@ Reads(k) ==
 NewContent(U, c, k) ==
   CASE k.op = "New" -> {}
     [] k.op \in {"Build", "BitmapOf", "LoadLegal"} -> ToSet(As(k))
-    [] k.op \in {"Clone", "DenseRT", "BitSetRT", "Load", "FrozenRT"} -> c[k.x]
+    [] k.op \in {"Clone", "DenseRT", "BitSetRT", "Load", "FrozenRT", "Load64"} -> c[k.x]
     [] k.op \in {"Add", "AddInt", "CheckedAdd"} -> c[k.x] \cup {k.a}
     [] k.op \in {"Remove", "CheckedRemove"} -> c[k.x] \ {k.a}
     [] k.op = "AddMany" -> c[k.x] \cup ToSet(As(k))
@@ -132,6 +132,13 @@ SerialClauses(k, r) ==
     [] k.op = "Freeze" -> FrozenViolations(r)
     [] k.op = "FrozenRT" -> IF r.err THEN {"frozen-view-error"} ELSE {}
     [] k.op = "LoadLegal" -> IF r.err THEN {"legal-stream-rejected"} ELSE {}
+    [] k.op = "Ser64" -> {cl \in {"write-error", "size-mismatch", "returned-count", "writers-differ", "library-bitmap-invalid"} :
+                            CASE cl = "write-error" -> r.err
+                              [] cl = "size-mismatch" -> ~r.err /\ ~NEq(r.len, r.gsz)
+                              [] cl = "returned-count" -> ~r.err /\ ~NEq(r.len, r.retn)
+                              [] cl = "writers-differ" -> ~r.err /\ ~r.same
+                              [] cl = "library-bitmap-invalid" -> ~r.valid}
+    [] k.op = "Load64" -> LoadViolations(r) \cup (IF r.valid THEN {} ELSE {"loaded-bitmap-invalid"})
     [] OTHER -> {}
 
 
@@ -139,7 +146,7 @@ HasResult(k) ==
   k.op \in {"CheckedAdd", "CheckedRemove", "AndCard", "OrCard", "Intersects", "Equals", "Contains", "IsEmpty",
             "Card", "Min", "Max", "Rank", "Select", "CardInRange", "IntersectsInterval", "NextValue",
             "PreviousValue", "NextAbsentValue", "PreviousAbsentValue", "ToArray", "ChecksumEq", "ChecksumRT",
-            "Ser", "Load", "WriteFail", "Freeze", "FrozenRT", "LoadLegal"}
+            "Ser", "Load", "WriteFail", "Freeze", "FrozenRT", "LoadLegal", "Ser64", "Load64"}
 
 ResultOK(U, c, k, r) ==
   CASE k.op = "CheckedAdd" -> r = (k.a \notin c[k.x])
@@ -162,7 +169,7 @@ ResultOK(U, c, k, r) ==
     [] k.op = "NextAbsentValue" -> LmMatches(NextIn(U, Complement(U, c[k.x]), k.c0, Side(k)), r)
     [] k.op = "PreviousAbsentValue" -> LmMatches(PrevIn(U, Complement(U, c[k.x]), k.c0, Side(k)), r)
     [] k.op = "ToArray" -> r = W(U, c[k.x])                      \* length; the listing itself is `arr`
-    [] k.op = "ChecksumEq" -> (c[k.x] = c[k.y]) => (r = TRUE)   \* equal sets hash equally
+    [] k.op = "ChecksumEq" -> TRUE   \* Checksum depends on the representation: C03 promises stability under Clone and round trip only (ChecksumRT)
     [] k.op = "ChecksumRT" -> r = TRUE
     [] OTHER -> SerialClauses(k, r) = {}
 
